@@ -142,6 +142,7 @@ def sym_setting(run, name):
 
 @register
 class TrackerInit(Contract):
+    prefer_variants = {"droplets.image_analysis:locate_droplets": "opaque", "droplets.image_analysis:get_length_scale": "opaque"}
     key = f"{TRK}:DropletTracker.__init__"
     modular = False
 
@@ -187,6 +188,7 @@ def sym_tracker(run, with_filename=None):
 
 @register
 class TrackerHandle(Contract):
+    prefer_variants = {"droplets.image_analysis:locate_droplets": "opaque", "droplets.image_analysis:get_length_scale": "opaque"}
     """DropletTracker.handle(field, t): appends L(extract(field, source), the tracker's settings) with time t"""
     key = f"{TRK}:DropletTracker.handle"
     modular = False
@@ -231,6 +233,7 @@ class TrackerHandle(Contract):
 
 @register
 class TrackerFinalize(Contract):
+    prefer_variants = {"droplets.image_analysis:locate_droplets": "opaque", "droplets.image_analysis:get_length_scale": "opaque"}
     key = f"{TRK}:DropletTracker.finalize"
     modular = False
 
@@ -253,6 +256,7 @@ class TrackerFinalize(Contract):
 
 @register
 class LengthScaleHandle(Contract):
+    prefer_variants = {"droplets.image_analysis:locate_droplets": "opaque", "droplets.image_analysis:get_length_scale": "opaque"}
     """LengthScaleTracker.handle: records exactly the value of the analysis (NaN if it raises anything) and never raises"""
     key = f"{TRK}:LengthScaleTracker.handle"
     modular = False
